@@ -1,6 +1,7 @@
 import Driver.State
 import IpfixModel.Model.Exporter
 import IpfixModel.Spec.C16
+import Driver.EngDec
 namespace Driver
 open Ipfix
 
@@ -125,6 +126,81 @@ def chkBld (a : List String) : String :=
       | none => "bad-op"
     | _, _, _, _ => "bad-op"
   | _, _ => "na"
+
+/-- engine "e2e": exporter model composed with the collector model (transports are the identity on
+    messages: C11 for TCP framing, one datagram per message over UDP, TLS/DTLS as the same channels) -/
+def engE2E (s : DState) (a : List String) : DState × String :=
+  match a with
+  | ["open", _transport, _fam, mode, dom] =>
+    match parseMode mode, dom.toNat? with
+    | some m, some d => ({ s with e2eExp := { dom := d }, e2eColl := {}, e2eMode := m }, "ok")
+    | _, _ => (s, "bad-op")
+  | ["close"] => (s, "ok")
+  | ["send", path, t, setid, recs] =>
+    match parseSetType t, setid.toNat?, parseRecsDesc recs with
+    | some ty, some sid, some rs =>
+      let d : SetDesc := { ty := ty, setId := sid, recs := rs }
+      match d.build (path == "2") with
+      | none => if ty = .data then (s, "err") else (s, "builderr")
+      | some b =>
+        let (st', r) := s.e2eExp.sendBuilt 0 b
+        match r with
+        | .err => ({ s with e2eExp := st' }, "err")
+        | .ok n w =>
+          let (c', o) := decodePacket fastLookup s.e2eMode s.e2eColl w
+          let s' := { s with e2eExp := st', e2eColl := c' }
+          match o with
+          | .ok m => (s', s!"sent {n} {(msgToken m).drop 3} timeok addrok")
+          | _ => (s', s!"sent {n} none")
+    | _, _, _ => (s, "bad-op")
+  | _ => (s, "bad-op")
+
+/-- `chk e2e <op> | <impl obs>`: C01 stated directly on what was handed to SendSet and what the
+    collector delivered: same observation domain, same template fields (id, enterprise, type, length,
+    name) in order, same number of records, every value identical (addresses in canonical length) -/
+def chkE2E (dom : Nat) (a : List String) : Nat × String :=
+  let (op, obs) := splitBar a
+  match op with
+  | ["open", _, _, _, d] => ((d.toNat?).getD 0, "holds")
+  | ["close"] => (dom, "na")
+  | ["send", _path, t, _setid, recs] =>
+    match parseSetType t, parseRecsDesc recs with
+    | some ty, some rs =>
+      match obs with
+      | ["builderr"] => (dom, "na")
+      | "sent" :: _n :: _len :: _time :: _seq :: d :: kind :: rest =>
+        if d.toNat? != some dom then (dom, "fails domain")
+        else if kind == "tpl" then
+          match rest, rs with
+          | [id, ies, tk, ak], [(tid, es)] =>
+            if ty != .template then (dom, "fails kind")
+            else if id.toNat? != some tid then (dom, "fails template-id")
+            else if parseIEs ies != some (es.map (·.1)) then (dom, "fails template-fields")
+            else if tk != "timeok" then (dom, "fails export-time")
+            else if ak != "addrok" then (dom, "fails export-address")
+            else (dom, "holds")
+          | _, _ => (dom, "fails shape")
+        else if kind == "data" then
+          match rest with
+          | [vals, tk, ak] =>
+            if ty != .data then (dom, "fails kind")
+            else
+              let expected := rs.map fun r => r.2.map fun e => C15.canon e.1 e.2
+              match parseRecords vals with
+              | some got =>
+                if got.length != expected.length then (dom, "fails record-count")
+                else if got != expected then (dom, "fails values")
+                else if tk != "timeok" then (dom, "fails export-time")
+                else if ak != "addrok" then (dom, "fails export-address")
+                else (dom, "holds")
+              | none => (dom, "fails shape")
+          | _ => (dom, "fails shape")
+        else (dom, "fails shape")
+      | ["sent", _, "none"] => (dom, "fails not-delivered")
+      | ["err"] => (dom, "fails send-error")
+      | _ => (dom, "fails shape")
+    | _, _ => (dom, "bad-op")
+  | _ => (dom, "na")
 
 def parseWrites (tok : String) : Option (List Bytes) :=
   if tok == "-" then some [] else (tok.splitOn "+").mapM fromHex
